@@ -8,8 +8,8 @@ use crate::lang::*;
 // ---------------------------------------------------------------------------------------------------------------------
 // O4 verdicts
 
-pub fn consistent_r(chk: RChk, then: Option<Val>, now: Option<Val>) -> bool { observe_r(chk, then) == observe_r(chk, now) }
-pub fn consistent_o(chk: OChk, then: &Out, now: &Out) -> bool { observe_o(chk, then) == observe_o(chk, now) }
+pub fn consistent_r(chk: RChk, then: Option<Val>, now: Option<Val>) -> bool { rel_r(chk, stamp_r(chk, then), stamp_r(chk, now)) }
+pub fn consistent_o(chk: OChk, then: &Out, now: &Out) -> bool { rel_o(chk, stamp_o(chk, then), stamp_o(chk, now)) }
 
 // ---------------------------------------------------------------------------------------------------------------------
 // O1 from-scratch evaluator
